@@ -139,7 +139,8 @@ class Interp:
             child_unit = list(unit) + ["blk", i]
             try:
                 cm = lcc.prepare_attachment("a%d.txt" % i, msg)     # public api: `_interruptible`
-            except lcc.AbortTest:
+            except lcc.AbortTest as e:
+                e._lccverif_kind = "interrupted"
                 self.user(unit, "raise:interrupted", None)
                 raise
             try:
